@@ -458,6 +458,9 @@ func RunMapOrder(c *core.Ctx, e *Env, designs []*DesignRef, full, pairDesigns ma
 		}
 	}
 	sort.Strings(uncontrolled)
+	if uncontrolled == nil {
+		uncontrolled = []string{}
+	}
 	c.Note("sites_static", len(e.Instr.Sites))
 	c.Note("sites_reached", len(reach))
 	c.Note("sites_reached_with_2plus_keys", len(reach)-len(unreached2))
